@@ -131,6 +131,15 @@ def cases(draw):
         d = draw(st.sampled_from(dirs))
         for nm, sp in (("aa_tokio", "rs-imports-tokio"), ("mm_plain", "rs-no-imports"), ("zz_tokio", "rs-imports-tokio")):
             files.append({"p": _join(d, nm + ".rs"), "lang": "rs", "special": sp, "u": 700 + len(files)})
+    if "py" in own_langs and draw(st.integers(0, 2)) == 0:
+        # files without an extension: a Makefile and a LICENSE (no language) and python-shebang scripts (Python) in the same
+        # directory - what a file IS must be decided per file, whatever was looked at before it
+        d = draw(st.sampled_from(dirs))
+        pyfam = [f for f in fams if f in seeds.families("py")] or ["magic"]
+        files.append({"p": _join(d, "LICENSE"), "lang": "none", "special": "text"})
+        files.append({"p": _join(d, "Makefile"), "lang": "none", "special": "text"})
+        for nm in ("build_tool", "zz_runner"):
+            files.append({"p": _join(d, nm), "lang": "py", "special": "py-script", "snips": [[draw(st.sampled_from(pyfam)), 600 + len(files), draw(st.integers(0, 2))]]})
     if cross or draw(st.integers(0, 9)) == 0:
         kind = "str" if cmd == "stringly-typed" else "dry"
         for g in range(draw(st.integers(1, 2))):
@@ -168,6 +177,11 @@ def render(f) -> str:
     if f.get("special") == "rs-no-imports":
         u = f["u"]
         return "\n".join([f"async fn report_{u}(p{u}: &str) -> usize {{", f"    let text{u} = fs::read_to_string(p{u});", f"    let copy{u} = text{u}.clone();", f"    measure_{u}(copy{u}, text{u})", "}", ""])
+    if f.get("special") == "text":
+        return "all:\n\techo done\n\nPermission is hereby granted to nobody in particular.\n"
+    if f.get("special") == "py-script":
+        text, _, _ = seeds.compose("py", [seeds.seed(fam, "py", u, var) for fam, u, var in f["snips"]], header=False)
+        return "#!/usr/bin/env python3\n" + text
     if "set" in f:
         fs = (seeds.stringly_set if f["set"] == "str" else seeds.dry_set)(lang, f["u"], f["nf"])
         texts = list(fs.values())
